@@ -16,7 +16,7 @@ DEFAULT = dict(
     weights=dict(ssink=3, ssinkc=1, csink=2, const=0.3, never=0.2, map=4, mapto=0.5, filter=2, filteropt=0.5,
                  merge=4, orelse=1.5, snapshot=3, snapshot1=0.7, snapshotn=0.5, gate=1, hold=2.5, once=1, updates=1,
                  value=1, mapc=1.5, lift2=2, liftn=0.5, accum=1.5, collect=1, defer=0, split=0, switchs=0, switchc=0,
-                 sloop=0, cloop=0, router=0, holdlazy=0, switchdyn=0, accumlazy=0, collectlazy=0, route=0, switchlate=0, switchlatec=0, snaplazy=0, snapmapc=0, latelisten=0),
+                 sloop=0, cloop=0, router=0, holdlazy=0, switchdyn=0, accumlazy=0, collectlazy=0, route=0, switchlate=0, switchlatec=0, snaplazy=0, snapmapc=0, latelisten=0, deepdiamond=0, lift2d=0),
     max_defer=1, leakcheck=False, malformed=False, values=(-5, 15), coalesce_sends=False,
 )
 
@@ -139,6 +139,12 @@ class Gen:
         elif kind == "lift2" and c and c2:
             n = self.fresh("c"); L.append(f"lift2 {n} {c} {c2} {self.op()}"); self.add_cell(n, self.t(c, c2))
             if c in self.swc or c2 in self.swc: self.swc.add(n)
+        elif kind == "lift2d" and c and c2:
+            c3 = self.C()
+            n = self.fresh("c"); L.append(f"lift2d {n} {c} {c2} {c3} {self.op()}"); self.add_cell(n, self.t(c, c2))
+            # (no Lazy is taken from this cell or cells computed from it: its unforced initial thunk owns the function and through
+            #  it the captured cell — a Lazy is allowed to keep alive what it needs, but M_struct does not model Lazies as owners)
+            self.swc.add(n)
         elif kind == "liftn" and c:
             cs = [self.C() for _ in range(r.randint(3, 6))]
             n = self.fresh("c"); L.append(f"liftn {n} {' '.join(cs)}"); self.add_cell(n, self.t(*cs))
@@ -197,6 +203,15 @@ class Gen:
             if self.r.random() < 0.6 or self.ident.get(s, s) == self.ident.get(s2, s2):
                 base = self.fresh("s"); L.append(f"map {base} {s2} {self.small()}"); self.add_stream(base, set())
             n = self.fresh("s"); L.append(f"switchlate {n} {s} {base} {self.op()}"); self.add_stream(n, set())
+        elif kind == "deepdiamond" and s and not self.t(s):
+            # a diamond whose sides differ by more than any plausible recursion bound: s and a chain of 66..130 maps of s
+            cur = s
+            for _ in range(self.r.randint(66, 130)):
+                nx = self.fresh("s"); L.append(f"map {nx} {cur} {self.r.randint(0, 2)}"); self.add_stream(nx, set()); cur = nx
+            n = self.fresh("s")
+            L.append(f"merge {n} {s} {cur} {self.op()}" if self.r.random() < 0.5 else f"merge {n} {cur} {s} {self.op()}")
+            self.add_stream(n, set())
+            l = self.fresh("l"); L.append(f"listen {l} {n}"); self.listeners.append(l)
         elif kind == "latelisten" and s and s2 and not self.t(s) and not self.t(s2):
             # FRP (a two-input node, a map, a listener) built inside a listener handler on the first event of s
             base = s2
